@@ -85,7 +85,13 @@ pub fn c02(c: &Case, rep: &mut Report) {
     if outs.iter().any(|(_, o)| has_code(o)) {
         rep.nontrivial(c, "");
     }
-    rep.sample(json!({"spec": c.spec, "scenario": c.scenario, "input_len": c.input.map(|i| i.len()), "outputs": outs.iter().map(|(l, o)| format!("{}:{}B", l, o.len())).collect::<Vec<_>>()}));
+    if let Some(e) = end.str("edits") {
+        for x in e.split(',') {
+            rep.observe("edit-kinds", x.split('(').next().unwrap_or(""));
+        }
+        rep.count("edit-scripts", 1);
+    }
+    rep.sample(json!({"spec": c.spec, "scenario": c.scenario, "input_len": c.input.map(|i| i.len()), "edits": end.str("edits"), "outputs": outs.iter().map(|(l, o)| format!("{}:{}B", l, o.len())).collect::<Vec<_>>()}));
     rep.held(c);
 }
 
